@@ -30,6 +30,14 @@ def conditions(prop, tier):
     q = tier == 'quick'
     t = 280 if q else 1500
     out = []
+    if prop == 'C04':
+        # "syntactically valid Python ... loads": the texts pasted into ONE-LINE literals (DISPLAY-HINT, UNITS, PRODUCT-RELEASE)
+        # are where a line break or a backslash breaks the module as a whole
+        for ci in range(len(CLAUSES)):
+            if CLAUSES[ci] in ('ot-units', 'tc-displayhint', 'ac-productrelease'):
+                out.append(dict(name='C04.exec.oneline-text.%s' % CLAUSES[ci], fn='x_text_pool', fixed=dict(ci=ci), timeout=t,
+                                bounds=X + 'clause %s with each of %d critical texts: the generated module compiles, loads and carries the text' % (CLAUSES[ci], len(POOL))))
+        return out
     for ci in range(len(CLAUSES)):
         out.append(dict(name='C15.exec.%s' % CLAUSES[ci], fn='x_text_pool', fixed=dict(ci=ci), timeout=t,
                         bounds=X + 'clause %s with each of %d critical texts (apostrophes, line breaks, non-ASCII, template and format '
@@ -38,4 +46,6 @@ def conditions(prop, tier):
 
 
 def selftests(prop):
+    if prop == 'C04':
+        return [('x_text_pool', dict(ci=2, ti=3, genTexts=True))]
     return [('x_text_pool', dict(ci=0, ti=2, genTexts=True)), ('x_text_pool', dict(ci=3, ti=3, genTexts=False))]
